@@ -583,6 +583,15 @@ def oracle(h, res):
                 # ... or that share their artifact (same record text: multi-ref ingest, zip) with such a dataset
                 alias_paths = {p_ for k_, p_ in b["recs"] if k_ in aliased}
                 via_alias = k in aliased or any(k_ == k and p_ in alias_paths for k_, p_ in b["recs"])
+                # ... or whose record text differs from another dataset's record text although both resolve to ONE file (the
+                # mechanism of the known defect itself, guard (1) of the theorems: e.g. put records the decoded text 'aJb/..',
+                # ingest the template text 'a%4ab/..', also across instruments 'Cam/A' / 'Cam_A' that the template merges)
+                def art(x):                  # StoredFileInfo.artifact_path: zip members / fragments of ONE artifact text are not aliases
+                    return x.rsplit("#", 1)[0] if "#" in x else x
+                own = {art(p_) for k_, p_ in b["recs"] if k_ == k and not p_.startswith("/")}
+                if not via_alias and any(k_ != k and not q.startswith("/") and art(q) not in own and any(py_loc(q) == py_loc(p_) for p_ in own)
+                                         for k_, q in b["recs"]):
+                    via_alias = True
                 cause = "" if refused else (":pct-escape" if via_alias else ":plain")
                 fails.append((f"live-dataset-lost-artifact:{tag}{refused}{cause}", n,
                               f"step {n} ({tag}, outcome {a['out']}): dataset {k} is still stored but its artifact is gone (get raises FileNotFoundError)"))
